@@ -133,7 +133,9 @@ type c05exp struct {
 	image    string
 }
 
-func c05expect(ch c05chain, carries map[string]uint, root string) c05exp { return c05expectAt(ch, carries, root, 0) }
+func c05expect(ch c05chain, carries map[string]uint, root string) c05exp {
+	return c05expectAt(ch, carries, root, 0)
+}
 
 // c05expectAt: the flattened expectation for the service at chain position from (it inherits positions > from).
 func c05expectAt(ch c05chain, carries map[string]uint, root string, from int) c05exp {
